@@ -10,6 +10,7 @@ import (
 	"testing"
 
 	r "github.com/DemoHn/Zn/pkg/runtime"
+	"github.com/DemoHn/Zn/pkg/value"
 	"pgregory.net/rapid"
 
 	h "verif/harness"
@@ -43,7 +44,64 @@ type exprCase struct {
 	Inputs map[string]inVal `json:"inputs"`
 }
 
-func replay(sub string, raw json.RawMessage) ([]h.Failure, error) { return replaySaved(raw) }
+func replay(sub string, raw json.RawMessage) ([]h.Failure, error) {
+	if sub == "identity" {
+		var v inVal
+		if err := json.Unmarshal(raw, &v); err != nil {
+			return nil, err
+		}
+		return checkIdentity(v), nil
+	}
+	return replaySaved(raw)
+}
+
+// equality is a relation between VALUES: comparing a value with itself (the same variable on
+// both sides) gives what comparing it with an equal value held by another variable gives -
+// whatever the answer is where the manual leaves it open (not-a-number)
+const identityProg = "输入A、B\n令C = A\n输出【A 为 A，A 为 B，A 为 C，A == A，A == B，A == C，A /= A，A /= B，A /= C，A 不为 A，A 不为 B，A 不为 C，【A，1】 为 【A，1】，【A，1】 为 【B，1】，【A，1】 为 【C，1】，【“k” = A】 == 【“k” = A】，【“k” = A】 == 【“k” = B】，【“k” = A】 == 【“k” = C】】"
+
+func checkIdentity(v inVal) []h.Failure {
+	o := h.Run(identityProg, h.Opts{Inputs: map[string]r.Element{"A": zn.ToElem(v.value()), "B": zn.ToElem(v.value())}})
+	desc := fmt.Sprintf("A and B both %s\n%s", v.Show, identityProg)
+	if o.Kind != h.KValue {
+		return []h.Failure{{Sig: "identity/" + o.Kind, Msg: desc + "\n" + o.Short()}}
+	}
+	arr, ok := o.Val.(*value.Array)
+	if !ok || len(arr.GetValue()) != 18 {
+		return []h.Failure{{Sig: "identity/not-a-list", Msg: desc + "\n" + o.Short()}}
+	}
+	items := arr.GetValue()
+	for i := 0; i < 18; i += 3 {
+		a, b, c := items[i].String(), items[i+1].String(), items[i+2].String()
+		if a != b || a != c {
+			return []h.Failure{{Sig: "identity/answer-depends-on-identity", Msg: fmt.Sprintf("%s\ncomparison #%d: with itself %s, with an equal value of another input %s, with a copy %s", desc, i/3+1, a, b, c)}}
+		}
+	}
+	return nil
+}
+
+func TestEqualityIgnoresIdentity(t *testing.T) {
+	rapid.Check(t, func(t *rapid.T) {
+		var v inVal
+		switch rapid.IntRange(0, 3).Draw(t, "kind") {
+		case 0:
+			v = inVal{T: "str", S: zn.GenText().Draw(t, "s")}
+			v.Show = fmt.Sprintf("the text %q", v.S)
+		case 1:
+			v = inVal{T: "bool", B: rapid.Bool().Draw(t, "b")}
+			v.Show = fmt.Sprint(v.B)
+		default:
+			f := zn.GenDouble().Draw(t, "f")
+			if rapid.IntRange(0, 3).Draw(t, "nan") == 0 {
+				f = math.NaN()
+			}
+			v = inVal{T: "num", N: math.Float64bits(f), Show: fmt.Sprint(f)}
+		}
+		key, _ := json.Marshal(v)
+		f, isNum := v.value().(float64)
+		h.R.Case(t, "identity", string(key), v, []string{"equality-of-a-value-with-itself:" + v.T}, isNum && (math.IsNaN(f) || f == 0), checkIdentity(v))
+	})
+}
 
 const tagFn = "记"
 
@@ -68,6 +126,8 @@ type gctx struct {
 	nops            int
 	tagUnderDecider bool
 	innerErr        bool
+	selfCmp         bool
+	selfNaN         bool
 }
 
 func (g *gctx) pick(n int, what string) int { return rapid.IntRange(0, n-1).Draw(g.t, what) }
@@ -140,7 +200,20 @@ func (g *gctx) expr(depth int, want string, underRight bool) zn.Expr {
 			if g.pick(3, "difftype") == 0 {
 				rt = []string{"num", "bool", "str"}[g.pick(3, "rt")]
 			}
-			e = &zn.Bin{Op: op, Spell: sp[g.pick(len(sp), "spell")], L: g.expr(depth-1, lt, underRight), R: g.expr(depth-1, rt, underRight)}
+			l := g.expr(depth-1, lt, underRight)
+			r := g.expr(depth-1, rt, underRight)
+			if g.pick(5, "same-operand") == 0 {
+				// a value compared with ITSELF (x 为 x is 假 exactly when x is not-a-number)
+				l = g.leaf(lt)
+				r = l
+				g.selfCmp = true
+				if vv, ok := l.(*zn.Var); ok {
+					if in := g.inputs[vv.Name]; in.T == "num" && math.IsNaN(math.Float64frombits(in.N)) {
+						g.selfNaN = true
+					}
+				}
+			}
+			e = &zn.Bin{Op: op, Spell: sp[g.pick(len(sp), "spell")], L: l, R: r}
 			g.ops[3]++
 			g.nops++
 		default:
@@ -184,6 +257,9 @@ func mkInputs(t *rapid.T) (map[string]inVal, []string, []string, []string) {
 	strs := []string{"S", "T"}
 	for _, n := range nums {
 		f := zn.GenDouble().Draw(t, "in-"+n)
+		if rapid.IntRange(0, 11).Draw(t, "nonfinite-"+n) == 0 {
+			f = rapid.SampledFrom([]float64{math.NaN(), math.NaN(), math.Inf(1), math.Inf(-1), math.Copysign(0, -1)}).Draw(t, "nf-"+n)
+		}
 		in[n] = inVal{T: "num", N: math.Float64bits(f), Show: fmt.Sprint(f)}
 	}
 	for _, n := range bools {
@@ -309,6 +385,12 @@ func TestExpr(t *testing.T) {
 		}
 		if len(g.ops) >= 2 {
 			labels = append(labels, "multi-level")
+		}
+		if g.selfCmp {
+			labels = append(labels, "value-compared-with-itself")
+			if g.selfNaN {
+				labels = append(labels, "not-a-number-compared-with-itself")
+			}
 		}
 		nt := (g.nops >= 2 && len(g.ops) >= 2) || (g.nextTag > len(ref.Out) && ref.Err == nil) || (ref.Err != nil && g.nops >= 2)
 		c := exprCase{Src: src, Inputs: inputs}
